@@ -273,11 +273,17 @@ def run(prop: str, tier: str) -> int:
     lits = drivers.repo_literals()
     for _ in range(200 if tier == "quick" else 4000):
         inputs.append(drivers.mutate(rng, rng.choice(lits))[:4096])
+    if prop == "C14":
+        run1, run2 = b"h\0e\0l\0l\0o\0 \0w\0o\0", b"s\0e\0c\0o\0n\0d\0 \0r\0u\0n\0"
+        for nul in range(1, 8):
+            inputs += [run1 + b"\0" * nul + run2, b"x " + run1 + b"\0" * nul + run2 + b"\0\0 tail"]
     if prop == "C13":
         # xor forms: every key 0..999 (sampled in the quick tier) in three spellings, on base64 / hex call forms and byte arrays
         keys = list(range(0, 1000)) if tier == "thorough" else sorted(set(list(range(0, 1000, 37)) + [0, 1, 35, 127, 128, 254, 255, 256, 257, 300, 999]))
         for kx in keys:
             p = rb(rng, rng.randint(4, 24))
+            if kx % 2 and kx < 256:
+                p = bytes([kx]) * (1 + kx % 3) + p          # the plaintext starts with NUL bytes
             form = [b"-bxor %d", b"-xor %d", b"-BXOR\t%d"][kx % 3] % kx
             call = [b"FromBase64String('" + base64.b64encode(p) + b"')", b"[System.Convert]::FromHexString('" + hexenc(p + bytes(10), kx % 2 == 0) + b"')"][kx % 2]
             inputs.append(b"$k = " + form + b"; " + call)
